@@ -20,6 +20,7 @@ type schedThread struct {
 	ok       bool
 	finished bool
 	pending  bool // was granted a segment and is waiting on a mutex inside it
+	granted  int
 }
 
 type schedRun struct {
@@ -78,6 +79,7 @@ type schedResult struct {
 	blockedPos, blockedThread int // -1: the word was feasible
 	hung                      bool
 	ok                        []bool
+	segs                      []int // segments each request was granted
 }
 
 const (
@@ -115,6 +117,7 @@ func (sr *schedRun) settle(i int) bool {
 }
 
 func (sr *schedRun) grant(i int) bool {
+	sr.threads[i].granted++
 	sr.threads[i].gate <- struct{}{}
 	return sr.settle(i)
 }
@@ -219,6 +222,7 @@ func runSched(reqs []func() bool, yields [][]string, word []int) schedResult {
 	}
 	for _, th := range sr.threads {
 		res.ok = append(res.ok, th.ok)
+		res.segs = append(res.segs, th.granted)
 	}
 	return res
 }
